@@ -1,52 +1,10 @@
+//! Phased symbolic programs on the sync SPSC channel (see seq.rs).
+use crate::chan_seq;
 use crate::common::*;
-use fibre::error::*;
+use crate::seq::*;
 use fibre::spsc;
 
-/// C03 (spsc): sequential programs of try_send/try_recv; try_send Ok iff not full.
-macro_rules! c03_spsc {
-  ($name:ident, $cap:expr, $n:expr, $unw:expr) => {
-    #[kani::proof]
-    #[kani::unwind($unw)]
-    fn $name() {
-      let (tx, rx) = spsc::bounded_sync::<u8>($cap);
-      let mut m = Fifo::<8>::new();
-      let mut next: u8 = 0;
-      let mut i = 0;
-      while i < $n {
-        if kani::any() {
-          match tx.try_send(next) {
-            Ok(()) => {
-              assert!(m.len < $cap, "C03: try_send succeeded on a full channel");
-              m.push(next);
-              next += 1;
-            }
-            Err(TrySendError::Full(v)) => {
-              assert!(m.len == $cap, "C03: try_send reported Full on a non-full channel");
-              assert!(v == next, "C01: Full hands the value back");
-            }
-            Err(_) => assert!(false, "C03: unexpected try_send error"),
-          }
-        } else {
-          match rx.try_recv() {
-            Ok(v) => {
-              assert!(m.pop() == Some(v), "C02: FIFO order");
-            }
-            Err(TryRecvError::Empty) => assert!(m.len == 0, "C01: Empty on non-empty channel"),
-            Err(_) => assert!(false, "C04: spurious Disconnected"),
-          }
-        }
-        assert!(tx.len() == m.len, "C03: len() equals buffered count");
-        assert!(tx.len() <= tx.capacity(), "C03: len() <= capacity()");
-        i += 1;
-      }
-      kani::cover!(m.len == $cap, "channel full at end");
-      kani::cover!(next as usize > $cap, "more sends than capacity (wrap)");
-      std::mem::forget(rx);
-      std::mem::forget(tx);
-    }
-  };
-}
-c03_spsc!(c03_q_spsc_seq_cap2, 2, 5, 6);
+const LIFE: u32 = A_LIFE | O_NOP;
 
 /// vacuity twin: must FAIL
 #[kani::proof]
@@ -56,8 +14,6 @@ fn zz_twin_must_fail() {
   let _ = tx.try_send(1);
   let r = rx.try_recv();
   assert!(r.is_err(), "TWIN: reachability witness");
-  let mut i = 0u8;
-  while i < 5 { i += 1; }
   std::mem::forget(rx);
   std::mem::forget(tx);
 }
